@@ -521,6 +521,39 @@ def render(deck, rng=None):
     return '\n'.join(out) + '\n'
 
 
+def expected_ast(expr):
+    '''The syntax tree of the expressions generated here as nested tuples
+    (left-nested binary intersections), written from the abstract expression:
+    ('S', n, facet) / ('^', 'cell') / ('*', a, b).'''
+    tag = expr[0]
+    if tag == 's':
+        return ('S', int(expr[1]), None)
+    if tag == '#c':
+        return ('^', str(expr[1]))
+    if tag == '*':
+        acc = expected_ast(expr[1])
+        for sub in expr[2:]:
+            acc = ('*', acc, expected_ast(sub))
+        return acc
+    raise ValueError(expr)
+
+
+def ast_canon(node):
+    '''What get_ast built, structurally: operator nodes are sequences (tuple,
+    list, namedtuple ...) whose first item is the operator, surfaces are objects
+    with .surface / .sub; anything else is kept by its repr.  No class names,
+    no repr formats.'''
+    if hasattr(node, 'surface'):
+        sub = getattr(node, 'sub', None)
+        return ('S', int(node.surface), None if sub is None else int(sub))
+    if isinstance(node, str):
+        return node
+    if isinstance(node, (tuple, list)) and node:
+        return tuple([node[0] if isinstance(node[0], str) else ast_canon(node[0])]
+                     + [ast_canon(x) for x in node[1:]])
+    return repr(node)
+
+
 def expected_ast_repr(expr):
     '''repr() of the AST get_ast builds for the expressions generated here
     (left-nested binary intersections), written from the abstract expression.'''
